@@ -96,6 +96,10 @@ def file_level(ctx, counts):
                     with TdmsFile.open(io.BytesIO(buf.getvalue())) as g:
                         reads.append(("lazy [:]", g["g"]["c"][:], expect))
                         reads.append(("lazy [:] again", g["g"]["c"][:], expect))
+                        # successive windows of equal size (temporary raw arrays of one shape, one after the other), nothing held
+                        for o_ in (0, 2, 4, 1, 3):
+                            reads.append(("lazy read_data(%d, 2)" % o_, g["g"]["c"].read_data(o_, 2), expect[o_:o_ + 2]))
+                        reads.append(("lazy chunks", np.concatenate([c_[:] for c_ in g["g"]["c"].data_chunks()]), expect))
                 except Exception as ex:  # noqa
                     out.append(Violation("thermocouple type %s direction %d on %s raw data through a file raised %s: %s" % (name, direction, np.dtype(dt), type(ex).__name__, str(ex)[:120]), rp))
                     continue
